@@ -45,7 +45,7 @@ func emit(op, args, res string) {
 
 func main() {
 	seed := flag.Int64("seed", 1, "")
-	mode := flag.String("mode", "seq", "seq | conc | child | wire")
+	mode := flag.String("mode", "seq", "seq | conc | child | wire | retry")
 	n := flag.Int("n", 10, "seq: sequences per backend; conc: runs")
 	nops := flag.Int("ops", 40, "seq: operations per sequence")
 	rounds := flag.Int("rounds", 60, "conc: rounds per run")
@@ -77,6 +77,8 @@ func main() {
 		runWire()
 	case "wire":
 		runWire()
+	case "retry":
+		runRetryProbe()
 	case "conc":
 		dir, err := os.MkdirTemp("", "verif-lock-conc-")
 		must(err)
